@@ -3,6 +3,7 @@ package main
 import (
 	"bytes"
 	"errors"
+	"fmt"
 	"net"
 	"strings"
 	"sync"
@@ -73,33 +74,65 @@ func (f *fakeWS) Writes() []wsMsg {
 	return append([]wsMsg(nil), f.writes...)
 }
 
-// <id> ws_peer <ser>
-// websocketPeer over a fake connection: one websocket message per WAMP
-// message, of the payload type given; an unserializable message and an
-// undecodable frame are dropped as a whole without disturbing their neighbours.
+// <id> ws_peer <ser> <keepalive 0|1> <pattern>
+// websocketPeer over a fake connection, with the plain sender loop
+// (keepalive 0) or the keep-alive one (1; the interval is an hour, no ping is
+// due during the case).  pattern: one letter per message handed to Send(),
+// G = an ordinary message, B = one the codec cannot encode (a complex number
+// among the arguments).  Reports which messages reached the connection (one
+// websocket message per WAMP message, of the payload type given), and on the
+// receive side that an undecodable frame is dropped without disturbing its
+// neighbours.
 func kindWsPeer(id string, a []string) {
-	serName := a[0]
+	serName, ka, pattern := a[0], a[1] == "1", a[2]
 	ser := serializerByName(serName)
 	ptype := wsBinary
 	if serName == "json" {
 		ptype = wsText
 	}
 	f := newFakeWS()
-	peer := transport.NewWebsocketPeer(f, ser, ptype, nullLog, 0, 8)
-	m1, b1 := sizedMsg(ser, 300)
-	bad := &wamp.Publish{Request: 7, Options: wamp.Dict{}, Topic: "t", Arguments: wamp.List{complex(1, 2)}}
-	m2 := goodbye("w")
-	b2, _ := ser.Serialize(m2)
-	peer.Send() <- m1
-	peer.Send() <- bad
-	peer.Send() <- m2
-	deadline := time.Now().Add(3 * time.Second)
-	for time.Now().Before(deadline) && len(f.Writes()) < 2 {
+	var keep time.Duration
+	if ka {
+		keep = time.Hour
+	}
+	peer := transport.NewWebsocketPeer(f, ser, ptype, nullLog, keep, 16)
+	var want [][]byte
+	lastGood := -1
+	for i, c := range pattern {
+		if c == 'G' {
+			m, b := sizedMsg(ser, 200+i)
+			want = append(want, b)
+			lastGood = i
+			peer.Send() <- m
+		} else {
+			want = append(want, nil)
+			peer.Send() <- &wamp.Publish{Request: wamp.ID(100 + i), Options: wamp.Dict{}, Topic: "t", Arguments: wamp.List{"x", complex(1, 2)}}
+		}
+	}
+	// wait for the last ordinary message (a sender that has stopped never writes it)
+	deadline := time.Now().Add(1500 * time.Millisecond)
+	for time.Now().Before(deadline) {
+		ws := f.Writes()
+		if lastGood < 0 || (len(ws) > 0 && bytes.Equal(ws[len(ws)-1].data, want[lastGood])) {
+			break
+		}
 		time.Sleep(time.Millisecond)
 	}
 	time.Sleep(5 * time.Millisecond)
-	ws := f.Writes()
-	sendOK := len(ws) == 2 && ws[0].typ == ptype && bytes.Equal(ws[0].data, b1) && ws[1].typ == ptype && bytes.Equal(ws[1].data, b2)
+	var sent, kinds []string
+	for _, w := range f.Writes() {
+		idx := "?"
+		for i, b := range want {
+			if b != nil && bytes.Equal(b, w.data) {
+				idx = fmt.Sprint(i)
+			}
+		}
+		sent = append(sent, idx)
+		kinds = append(kinds, map[int]string{wsText: "text", wsBinary: "binary"}[w.typ])
+	}
+	if len(sent) == 0 {
+		sent, kinds = []string{"-"}, []string{"-"}
+	}
 
 	// receive side
 	h1, hb1 := sizedMsg(ser, 200)
@@ -127,11 +160,7 @@ func kindWsPeer(id string, a []string) {
 		rdClosed = false
 	}
 	recvOK := rdClosed && len(got) == 2 && got[0] == canonMsg(ser, h1) && got[1] == canonMsg(ser, h2)
-	var kinds []string
-	for _, w := range ws {
-		kinds = append(kinds, map[int]string{wsText: "text", wsBinary: "binary"}[w.typ])
-	}
-	emit(id, "send_ok=%v writes=%d types=%s recv_ok=%v delivered=%d rd_closed=%v", sendOK, len(ws), strings.Join(kinds, ","), recvOK, len(got), rdClosed)
+	emit(id, "sent=%s types=%s recv_ok=%v delivered=%d rd_closed=%v", strings.Join(sent, ","), strings.Join(kinds, ","), recvOK, len(got), rdClosed)
 	if rdClosed {
 		peer.Close()
 	}
